@@ -125,12 +125,7 @@ ESCAPE_OK = {
 }
 
 
-def both_reach_return(b, bi):
-    rets = set(b.return_blocks())
-    for s in b.succs(bi):
-        if not (b.reachable(s) & rets):
-            return False
-    return True
+both_reach_return = L.both_reach_return
 
 
 def run(ctx):
@@ -205,7 +200,7 @@ def run(ctx):
 
     # ------------------------------------------------------------------ R2 mode non-interference
     split = L.mode_split(P, SCR, "definitive")
-    ctx.floor("C01-R2", "functions branching on scratch.definitive", len(split), 8)
+    ctx.floor("C01-R2", "functions branching on scratch.definitive", len(split), 7)
     fpred = L.is_field_read(SCR, "definitive")
 
     def pred(e):
